@@ -1,19 +1,32 @@
 """C19 - ignored hosts are passed through untouched and allow/ignore rules are honoured.
 
-Decided (structural clauses):
-  R19.1 the Host-sniffing regex of NextLayer._get_host_header (IGNORECASE): optional whitespace after "Host:" is
-        really optional (RFC 9110 OWS = *(SP / HTAB)), the captured group accepts host[:port] forms and never starts
-        with whitespace, trailing OWS is tolerated, and "\\r\\n\\r\\n" (end of head, no Host) is accepted. Decided on the
-        regex's *language* (sub-pattern NFAs), not by running `re`.
-  R19.2 _ignore_connection considers all five destination sources (server.peername, server.address, Host header,
-        ClientHello SNI, client.sni), each as host:port; NeedsMoreData propagates to next_layer, which defers.
-  R19.3 decision table over allow {unset, no match, match} x ignore {unset, no match, match}: ignored iff
-        (allow set and nothing matches) or (ignore set and something matches); both use re.search(..., IGNORECASE).
-  R19.4 in _next_layer the ignore test is the first decision and yields TCPLayer/UDPLayer(ignore=not show_ignored_hosts).
-  R19.5 relay identity: the ClientTLSLayer ignore branch installs an ignoring TCP/UDP layer, forwards the whole
-        receive buffer once and returns before any TLS is started; an ignoring TCPLayer/UDPLayer sends event.data itself.
-Not decided: end-to-end byte relay over all segmentations (structurally covered by C04/C29), capture-group semantics
-of lazy vs greedy quantifiers.
+All clauses except the regex language (R19.1, NFA) and first-decision dominance (R19.4, path enumeration) are decided by
+*interpreting* the repository functions (mitmlint.pyint, AST only - nothing of the repository is imported or run) on a finite, completely
+enumerated domain of abstract connections, so the rules compare what the code computes, not how it is written: renamed locals,
+temporaries instead of walrus conditions, for-loops instead of any(), early returns, extracted helpers, conditional expressions, added
+logging / assertions are all evaluated like the original.
+
+Decided:
+  R19.1 the Host-sniffing regex used by NextLayer._get_host_header (found by recording the `re` calls the function makes, wherever the
+        pattern literal lives): IGNORECASE, re.search, optional whitespace after "Host:" is really optional (RFC 9110 OWS = *(SP / HTAB)),
+        the captured group accepts host[:port] forms and never starts with whitespace, trailing OWS is tolerated, "\\r\\n\\r\\n" (end of
+        head, no Host) is accepted - decided on the regex's *language* (sub-pattern NFAs); plus _get_host_header evaluated on every
+        legal spelling returns exactly the host.
+  R19.2 every one of the five destination sources (server.peername, server.address, Host header, ClientHello SNI over TCP / DTLS / QUIC,
+        client.sni) alone decides _ignore_connection, as exactly "host:port" (anchored pattern ^host:port$); an incomplete request head /
+        ClientHello raises NeedsMoreData out of _ignore_connection and next_layer then leaves nextlayer.layer unset.
+  R19.3 decision table allow {unset, no match, match} x ignore {unset, no match, match}: ignored iff (allow set and nothing matches) or
+        (ignore set and something matches); patterns are applied unanchored and case-insensitively, to every (host, pattern) pair.
+  R19.4 every returning path of _next_layer has evaluated the ignore test (path enumeration, helpers inlined), and for every proxy-mode
+        stack x transport x kind of first bytes an ignored connection gets TCPLayer / UDPLayer by transport, recording no flow unless
+        show_ignored_hosts.
+  R19.5 ClientTLSLayer.receive_handshake_data with an addon setting ignore_connection in tls_clienthello (ClientHello in one to three
+        segments, TLS / DTLS, with / without a ServerTLSLayer parent): no TLS is started, this layer and a ServerTLSLayer parent are
+        detached from the real connections, an ignoring TCP/UDP relay is installed *before* exactly one DataReceived(client, <all bytes
+        received so far>) is passed down, and the handshake is reported finished; an ignoring TCPLayer / UDPLayer records no flow and
+        answers DataReceived(X, data) with exactly SendData(opposite(X), data).
+Not decided: end-to-end byte relay over all schedules (C04/C29), capture-group semantics of lazy vs greedy quantifiers, the WireGuard
+DNS special case (named assumption: not that mode).
 """
 
 from __future__ import annotations
@@ -24,34 +37,235 @@ from re import _constants as sc  # type: ignore[attr-defined]
 
 from .. import rx
 from ..core import AnalysisError
-from ..core import norm
 from ..model import attr_chain
-from ..model import calls_in
-from ..model import last_attr
-from ..model import walk_in_order
-from ..paths import C
-from ..paths import Engine
 from ..paths import GenericSpec
-from ..paths import is_const
-from ..paths import Spec
-from ..paths import State
 from ..paths import traces_of
-from ..paths import UNKNOWN
+from ..pyint import ClassRef
+from ..pyint import Func
+from ..pyint import Gen
+from ..pyint import Interp
+from ..pyint import Raised
+from ..pyint import Rec
 from ..selftest import Mutant
+from .C29 import initial_handler
 
 PROP = "C19"
 REG = {
     "strength": "partial",
-    "technique": "regex sub-language membership (NFA), def-use source coverage, decision table by path enumeration, first-decision dominance, relay identity",
-    "claim": "the Host-sniffing regex accepts every OWS form and host form required by RFC 9110; all five destination sources feed the decision; the allow/ignore "
-    "decision table equals the reference on all 9 cells; the ignore test dominates every other layer decision; the ignore paths relay the original bytes.",
-    "note": "Regex semantics beyond language (which alternative a backtracking engine prefers) are not decided.",
+    "technique": "regex sub-language membership (NFA); abstract interpretation (pyint) of _ignore_connection / _get_host_header / _get_client_hello / "
+    "next_layer / _next_layer / ClientTLSLayer.receive_handshake_data / TCPLayer / UDPLayer on an enumerated domain; first-decision dominance by path enumeration",
+    "claim": "the Host-sniffing regex accepts every OWS form and host form required by RFC 9110; each of the five destination sources alone decides the "
+    "ignore/allow test as host:port and incomplete input defers the decision; the allow/ignore decision table equals the reference on all 9 cells with "
+    "unanchored case-insensitive matching; the ignore test dominates every other layer decision and selects a raw relay by transport; the TLS passthrough "
+    "detaches the TLS layers, forwards all buffered bytes once to an ignoring relay and starts no TLS; ignoring relays record nothing and forward the bytes unchanged.",
+    "note": "Regex semantics beyond language (which alternative a backtracking engine prefers) are not decided. ClientHello parsers are stubbed (C16/C17 decide them).",
 }
 
 NL = "mitmproxy/addons/next_layer.py"
 TLS = "mitmproxy/proxy/layers/tls.py"
 TCP = "mitmproxy/proxy/layers/tcp.py"
 UDP = "mitmproxy/proxy/layers/udp.py"
+CONN = "mitmproxy/connection.py"
+EVENTS = "mitmproxy/proxy/events.py"
+MODES = "mitmproxy/proxy/layers/modes.py"
+
+
+# ---------------------------------------------------------------------------------------------------------------------------------
+# the abstract world the repository functions are interpreted in
+
+
+def _parented(tree):
+    for n in ast.walk(tree):
+        for c in ast.iter_child_nodes(n):
+            c._parent = n  # pyint decides "is a generator" through the parent links
+    return tree
+
+
+def _stub_def(src: str):
+    return _parented(ast.parse(src)).body[0]
+
+
+def _stub_lambda(src: str):
+    return _parented(ast.parse(src, mode="eval")).body
+
+
+class _RecordingPattern:
+    def __init__(self, log, pat, pattern, flags):
+        self._log, self._pat, self.pattern, self.flags = log, pat, pattern, flags
+
+    def _m(self, api, *a, **k):
+        self._log.append((api, self.pattern, self.flags))
+        return getattr(self._pat, api)(*a, **k)
+
+    def search(self, *a, **k):
+        return self._m("search", *a, **k)
+
+    def match(self, *a, **k):
+        return self._m("match", *a, **k)
+
+    def fullmatch(self, *a, **k):
+        return self._m("fullmatch", *a, **k)
+
+
+class _RecordingRe:
+    """`re` as seen by the interpreted code: the real (trusted) module, every pattern application recorded as (api, pattern, flags)"""
+
+    def __init__(self):
+        self.log: list = []
+
+    def __getattr__(self, name):
+        return getattr(re, name)
+
+    def _apply(self, api, pattern, *a, flags=0, **k):
+        rest = list(a)
+        if len(rest) >= 2:
+            flags = rest[1]
+        if isinstance(pattern, _RecordingPattern):
+            return getattr(pattern, api)(*rest[:1])
+        self.log.append((api, pattern, int(flags)))
+        return getattr(re, api)(pattern, *rest[:1], flags=flags, **k)
+
+    def search(self, pattern, *a, **k):
+        return self._apply("search", pattern, *a, **k)
+
+    def match(self, pattern, *a, **k):
+        return self._apply("match", pattern, *a, **k)
+
+    def fullmatch(self, pattern, *a, **k):
+        return self._apply("fullmatch", pattern, *a, **k)
+
+    def compile(self, pattern, flags=0):
+        return _RecordingPattern(self.log, re.compile(pattern, flags), pattern, int(flags))
+
+
+class _Uuid:
+    @staticmethod
+    def uuid4():
+        return "00000000-0000-0000-0000-000000000000"
+
+
+class _Time:
+    @staticmethod
+    def time():
+        return 1.0
+
+
+class _Interp(Interp):
+    """pyint plus the introspection attributes harmless edits use (`type(self).__name__` in a log line / label)"""
+
+    def getattr(self, base, attr, node, depth):
+        if isinstance(base, ClassRef) and attr in ("__name__", "__qualname__"):
+            return base.node.name
+        if isinstance(base, Rec) and base._cls == "Logger" and attr not in base.__dict__:
+            return base.__dict__["debug"]  # any other logging.Logger method: accepts everything, returns None (falsy: isEnabledFor -> not enabled)
+        if isinstance(base, Rec) and attr == "__class__" and base._impl is not None and "__class__" not in base.__dict__:
+            return ClassRef(self.model.module(base._impl[0]), self.model.cls(*base._impl))
+        return Interp.getattr(self, base, attr, node, depth)
+
+    def native_call(self, f, args, kwargs, where):
+        try:
+            return Interp.native_call(self, f, args, kwargs, where)
+        except Raised as r:
+            # an interpreted exception that escapes from an interpreted generator while a native consumer (list(), dict.fromkeys(), any())
+            # drains it is re-wrapped by pyint as Raised('Raised'): restore the original
+            if r.name == "Raised" and isinstance(r.__context__, Raised):
+                raise r.__context__ from None
+            raise
+
+
+class World:
+    """One interpreter + the stubs that stand for everything outside the clauses decided here."""
+
+    def __init__(self, model, ignore=(), allow=(), show=False, hello=None):
+        import collections
+
+        self.model = model
+        self.re = _RecordingRe()
+        anything = Func(model.module(NL), _stub_lambda("lambda *a, **k: None"))
+        self.logger = Rec("Logger", _name="logger", **{n: anything for n in ("debug", "info", "warning", "warn", "error", "exception", "critical", "log")})
+        logging = Rec("logging", _name="logging", DEBUG=10, INFO=20, WARNING=30, WARN=30, ERROR=40, CRITICAL=50,
+                      getLogger=Func(model.module(NL), _stub_lambda("lambda *a, **k: L"), closure={"L": self.logger}))
+        self.it = it = _Interp(model, trusted_modules={"re": self.re, "logging": logging, "collections": collections, "uuid": _Uuid, "time": _Time}, max_steps=200000)
+        self.options = Rec("Options", _name="options", ignore_hosts=list(ignore), allow_hosts=list(allow), show_ignored_hosts=show)
+        it.overrides[(NL, "ctx")] = Rec("ctx", options=self.options)
+        it.overrides[("mitmproxy/ctx.py", "options")] = self.options
+        self.hello = hello  # what the (stubbed) ClientHello parsers return: None = incomplete, "invalid" = ValueError, else the ClientHello
+        self.parsed: list = []
+
+        def parser(kind):
+            def parse(data):
+                self.parsed.append((kind, bytes(data[0]) if isinstance(data, list) else bytes(data)))
+                h = self.hello(kind, data) if callable(self.hello) else self.hello
+                if h == "invalid":
+                    raise ValueError("invalid ClientHello")
+                return h
+
+            return parse
+
+        kinds = {"parse_client_hello": "tls", "dtls_parse_client_hello": "dtls", "quic_parse_client_hello_from_datagrams": "quic"}
+        for rel in (NL, TLS, "mitmproxy/proxy/layers/quic/_client_hello_parser.py", "mitmproxy/proxy/layers/quic/__init__.py"):
+            for name, kind in kinds.items():
+                it.overrides[(rel, name)] = parser(kind)
+            if model.exists(rel):
+                for alias, target in model.module(rel).imports.items():  # `from ...tls import parse_client_hello as _parse`
+                    if target.rsplit(".", 1)[-1] in kinds and target.startswith("mitmproxy."):
+                        it.overrides[(rel, alias)] = parser(kinds[target.rsplit(".", 1)[-1]])
+        # flows: only "is there one" matters here
+        flow = Func(model.module(TCP), _stub_lambda("lambda *a, **k: 'FLOW'"))
+        for rel, name in (("mitmproxy/tcp.py", "TCPFlow"), (TCP, "TCPFlow"), ("mitmproxy/udp.py", "UDPFlow"), (UDP, "UDPFlow")):
+            it.overrides[(rel, name)] = flow
+
+    # -- abstract objects
+    def context(self, proto="tcp", stack=("TransparentProxy",), peername=None, address=None, client_sni=None):
+        common = dict(error=None, tls=False, certificate_list=(), alpn=None, alpn_offers=[], cipher=None, cipher_list=(), tls_version=None, timestamp_end=None,
+                      timestamp_tls_setup=None, transport_protocol=proto, state=3)
+        client = Rec("Client", _bases=("Connection",), _name="client", _impl=(CONN, "Client"), id="client-id", peername=("198.51.100.9", 51234), sockname=("192.0.2.1", 8080),
+                     sni=client_sni, proxy_mode=Rec("RegularMode", _bases=("ProxyMode",)), mitmcert=None, timestamp_start=1.0, **common)
+        server = Rec("Server", _bases=("Connection",), _name="server", _impl=(CONN, "Server"), id="server-id", peername=peername, address=address, sockname=None, sni=None,
+                     timestamp_start=1.0, timestamp_tcp_setup=1.0, via=None, **common)
+        return Rec("Context", _name="context", client=client, server=server, layers=[Rec(n, _bases=("Layer",), _name=n) for n in stack], options=Rec("Options"))
+
+    def next_layer_addon(self):
+        return Rec("NextLayer", _name="addon", _impl=(NL, "NextLayer"))
+
+    def new(self, rel, cls, *args, **kwargs):
+        return self.it.apply(ClassRef(self.model.module(rel), self.model.cls(rel, cls)), list(args), kwargs, 0)
+
+    def drive(self, gen, stop=None):
+        """run an interpreted generator to its end: (yielded values, return value); ``stop(value)`` true ends the run early"""
+        if not isinstance(gen, Gen):
+            return [], gen
+        ys, k = [], 0
+        while True:
+            kind, v = self.it.run_gen_until(gen, k)
+            if kind == "stop":
+                return ys, v
+            ys.append(v)
+            if stop is not None and stop(v):
+                return ys, "<stopped>"
+            k += 1
+            if k > 50:
+                raise AnalysisError("C19: interpreted generator yields without end")
+
+
+def _raised(e: Raised, what: str, expected=("NeedsMoreData",)) -> str:
+    """an exception of the interpreted code: NeedsMoreData is part of the decided behaviour; anything else in the abstract evaluation is an
+    unmodelled situation (exit 2), never a verdict"""
+    if e.name in expected:
+        return f"raises {e.name}"
+    raise AnalysisError(f"C19: {what} raises {e.name} ({e.msg}) in the abstract evaluation - not modelled")
+
+
+def _is(v, cls: str) -> bool:
+    return isinstance(v, Rec) and v.isa(cls)
+
+
+# first bytes
+HTTP_HEAD = b"GET /index.html HTTP/1.1\r\nUser-Agent: x\r\nHost: %s\r\nAccept: */*\r\n\r\n"
+TLS_RECORD = b"\x16\x03\x01\x00\x2e\x01\x00\x00\x2a\x03\x03" + b"\x00" * 40
+DTLS_RECORD = b"\x16\xfe\xfd\x00\x00\x00\x00\x00\x00\x00\x00\x00\x2e\x01" + b"\x00" * 40
+QUIC_INITIAL = b"\xc3\x00\x00\x00\x01\x08" + b"\x11" * 40
+RAW_BYTES = b"\x00\x01\x02binary\x00"
 
 
 def _find_group(items, group):
@@ -76,86 +290,39 @@ def _find_group(items, group):
     return None
 
 
-class IgnoreSpec(Spec):
-    """Decides the option/match predicates of _ignore_connection from an abstract configuration."""
-
-    max_depth = 1
-
-    def __init__(self, cfg):
-        self.cfg = cfg
-        self.search_calls = {}
-
-    def events(self, node, st):
-        return []
-
-    def _match_any(self, call):
-        """any(re.search(rex, host, re.IGNORECASE) for host in hostnames for rex in ctx.options.X) -> 'X' or None"""
-        if not (isinstance(call, ast.Call) and isinstance(call.func, ast.Name) and call.func.id == "any" and len(call.args) == 1 and isinstance(call.args[0], ast.GeneratorExp)):
-            return None
-        g = call.args[0]
-        opt = None
-        for comp in g.generators:
-            ch = attr_chain(comp.iter)
-            if ch.startswith("ctx.options."):
-                opt = ch[len("ctx.options."):]
-        elt = g.elt
-        if opt is None or not (isinstance(elt, ast.Call) and norm(elt.func).startswith("re.")):
-            raise AnalysisError(f"host-match expression of a shape the rule does not model: {norm(call)}")
-        self.search_calls[id(elt)] = (opt, elt)
-        return opt
-
-    def value(self, expr, st, depth):
-        ch = attr_chain(expr)
-        if ch == "ctx.options.allow_hosts":
-            return C(["x"] if self.cfg["allow"] != "unset" else [])
-        if ch == "ctx.options.ignore_hosts":
-            return C(["x"] if self.cfg["ignore"] != "unset" else [])
-        if isinstance(expr, ast.Name) and expr.id == "hostnames":
-            return C(["h:1"])
-        opt = self._match_any(expr) if isinstance(expr, ast.Call) else None
-        if opt is not None:
-            key = {"allow_hosts": "allow", "ignore_hosts": "ignore"}.get(opt)
-            if key is None:
-                raise AnalysisError(f"host match against unexpected option {opt}")
-            return C(self.cfg[key] == "match")
-        return Spec.value(self, expr, st, depth)
-
-    def decide_leaf(self, cond, st, depth):
-        if isinstance(cond, ast.Call):
-            if norm(cond.func) == "isinstance" and "WireGuardMode" in norm(cond):
-                return False  # named assumption: not the WireGuard DNS special case
-            opt = self._match_any(cond)
-            if opt is not None:
-                return bool(self.value(cond, st, depth)[1])
-        return Spec.decide_leaf(self, cond, st, depth)
-
-    def effect(self, stmt, st, depth):
-        # keep `hostnames` abstractly non-empty
-        if isinstance(stmt, (ast.Assign, ast.AnnAssign)):
-            t = stmt.targets[0] if isinstance(stmt, ast.Assign) else stmt.target
-            if isinstance(t, ast.Name) and t.id == "hostnames":
-                return st
-        return Spec.effect(self, stmt, st, depth)
+def _decide(w: World, context, data_client=b"", data_server=b""):
+    """_ignore_connection on the abstract connection: True / False / 'raises <Exc>'"""
+    try:
+        r = w.it.method(w.next_layer_addon(), "_ignore_connection", context, data_client, data_server)
+    except Raised as e:
+        return _raised(e, "_ignore_connection")
+    if r is True or r is False:
+        return r
+    if r is None:
+        return False  # bool | None: falsy = not ignored
+    raise AnalysisError(f"_ignore_connection returned {r!r} (neither bool nor None)")
 
 
-def check(ctx):
-    ctx.exhaustive = True
-    ctx.bounds.append("loops unrolled once in path enumeration; the allow/ignore table enumerates its abstract domain completely")
-    ctx.rule("R19.1", "Host-sniffing regex: OWS optional, host forms accepted, no leading whitespace in the capture, IGNORECASE")
-    ctx.rule("R19.2", "all five destination sources reach the decision as host:port; NeedsMoreData propagates and defers")
-    ctx.rule("R19.3", "allow/ignore decision table == reference; re.search with IGNORECASE")
-    ctx.rule("R19.4", "ignore test is the first decision of _next_layer and selects an (optionally hidden) raw relay layer")
-    ctx.rule("R19.5", "ignore paths relay the original bytes and never start TLS")
+# ---------------------------------------------------------------------------------------------------------------------------------
+
+
+def r191(ctx):
     m = ctx.model
-
-    # ---- R19.1
     ghh = ctx.func(NL, "NextLayer._get_host_header")
     where = (NL, "NextLayer._get_host_header", ghh)
-    pats = [p for p in rx.find_call_patterns(ghh, funcs=("search", "match", "compile")) if b"Host" in (p[1] if isinstance(p[1], bytes) else p[1].encode()) or b"host" in (p[1] if isinstance(p[1], bytes) else p[1].encode()).lower()]
-    ctx.require(len(pats) == 1, f"_get_host_header: expected one Host-sniffing regex, found {len(pats)}")
-    call, pat, flags = pats[0]
+    # which regex does the function apply to the request head?  (recorded, so the literal may live in a constant or helper)
+    w = World(m)
+    cx = w.context(address=("192.0.2.1", 80))
+    try:
+        got = w.it.method(w.next_layer_addon(), "_get_host_header", cx, HTTP_HEAD % b"example.com", b"")
+    except Raised as e:
+        raise AnalysisError(f"_get_host_header raises {e.name} on a complete request head")
+    pats = [(api, p, f) for api, p, f in w.re.log if b"host" in (p if isinstance(p, bytes) else str(p).encode()).lower()]
+    pats = list(dict.fromkeys(pats))
+    ctx.require(len(pats) == 1, f"_get_host_header: expected one Host-sniffing regex to be applied, saw {len(pats)}: {pats}")
+    api, pat, flags = pats[0]
     ctx.check(bool(flags & re.IGNORECASE), "R19.1", where, "Host regex flags", "header names are case-insensitive: the regex is used without re.IGNORECASE", desc="IGNORECASE")
-    ctx.check(call.func.attr == "search", "R19.1", where, f"re.{call.func.attr}", "the Host header is not at the start of the head: re.search is required", desc="re.search")
+    ctx.check(api == "search", "R19.1", where, f"re.{api}", "the Host header is not at the start of the head: re.search is required", desc="re.search")
     tree = rx.parse(pat, flags)
     found = _find_group(tree, 1)
     ctx.require(found is not None, "Host regex has no capture group 1")
@@ -163,156 +330,397 @@ def check(ctx):
     # items between the literal ':' and the group
     colon = max((i for i, (op, av) in enumerate(seq[:gi]) if op is sc.LITERAL and av == ord(":")), default=None)
     ctx.require(colon is not None, "Host regex: no literal ':' before the capture group")
-    name_items = seq[:colon]
-    name_nfa = rx.nfa_of(pat, flags, items=name_items)
+    name_nfa = rx.nfa_of(pat, flags, items=seq[:colon])
     ctx.check(name_nfa.accepts(b"Host") and name_nfa.accepts(b"host") and name_nfa.accepts(b"HOST") and not name_nfa.accepts(b"Hos") and not name_nfa.accepts(b"X-Host"), "R19.1", where, "field name",
               "the field-name part does not accept exactly Host in any case", desc="field name language")
     between = rx.nfa_of(pat, flags, items=seq[colon + 1 : gi])
-    for w in (b"", b" ", b"\t", b"  ", b" \t"):
-        ctx.check(between.accepts(w), "R19.1", where, f"OWS {w!r} after 'Host:'", f"optional whitespace {w!r} between 'Host:' and the value is not accepted (RFC 9110: OWS is optional) => the Host header is not seen and ignore/allow rules are bypassed",
-                  desc=f"OWS {w!r}")
+    for s in (b"", b" ", b"\t", b"  ", b" \t"):
+        ctx.check(between.accepts(s), "R19.1", where, f"OWS {s!r} after 'Host:'", f"optional whitespace {s!r} between 'Host:' and the value is not accepted (RFC 9110: OWS is optional) => the Host header is not seen and ignore/allow rules are bypassed",
+                  desc=f"OWS {s!r}")
     group = rx.nfa_of(pat, flags, items=seq[gi][1][3])
-    for w in (b"example.com", b"a", b"example.com:8080", b"[::1]:443", b"EXAMPLE.COM", b"xn--bcher-kva.example"):
-        ctx.check(group.accepts(w), "R19.1", where, f"host form {w!r}", "the capture group rejects a legal Host value", desc=f"host {w!r}")
-    for w in (b"", b" example.com", b"\texample.com"):
-        ctx.check(not group.accepts(w), "R19.1", where, f"capture {w!r}", "the capture group accepts an empty value or leading whitespace (host compared with stray whitespace)", desc=f"capture rejects {w!r}")
+    for s in (b"example.com", b"a", b"example.com:8080", b"[::1]:443", b"EXAMPLE.COM", b"xn--bcher-kva.example"):
+        ctx.check(group.accepts(s), "R19.1", where, f"host form {s!r}", "the capture group rejects a legal Host value", desc=f"host {s!r}")
+    for s in (b"", b" example.com", b"\texample.com"):
+        ctx.check(not group.accepts(s), "R19.1", where, f"capture {s!r}", "the capture group accepts an empty value or leading whitespace (host compared with stray whitespace)", desc=f"capture rejects {s!r}")
     after = rx.nfa_of(pat, flags, items=seq[gi + 1 :])
-    for w in (b"", b" ", b" \t"):
-        ctx.check(after.accepts(w), "R19.1", where, f"trailing OWS {w!r}", "trailing optional whitespace after the Host value is not tolerated", desc=f"trailing OWS {w!r}")
+    for s in (b"", b" ", b" \t"):
+        ctx.check(after.accepts(s), "R19.1", where, f"trailing OWS {s!r}", "trailing optional whitespace after the Host value is not tolerated", desc=f"trailing OWS {s!r}")
     whole = rx.nfa_of(pat, flags)
-    for w in (b"\r\nHost:example.com\r\n", b"\r\nhost: example.com \r\n", b"\r\nHOST:\texample.com\r\n", b"\r\n\r\n"):
-        ctx.check(whole.accepts(w), "R19.1", where, f"whole pattern on {w!r}", "a header line in a legal spelling (or the end of the head) is not matched", desc=f"whole {w!r}")
-    ctx.expect_instances("R19.1", 22)
+    for s in (b"\r\nHost:example.com\r\n", b"\r\nhost: example.com \r\n", b"\r\nHOST:\texample.com\r\n", b"\r\n\r\n"):
+        ctx.check(whole.accepts(s), "R19.1", where, f"whole pattern on {s!r}", "a header line in a legal spelling (or the end of the head) is not matched", desc=f"whole {s!r}")
+    # the function itself, on every legal spelling of the header line
+    bad = []
+    n = 0
+    for line in (b"Host: example.com", b"Host:example.com", b"host:\texample.com", b"HOST:  example.com  ", b"hOsT: example.com\t"):
+        head = b"POST /x HTTP/1.1\r\nA: b\r\n" + line + b"\r\nC: d\r\n\r\n"
+        try:
+            r = World(m).it.method(w.next_layer_addon(), "_get_host_header", cx, head, b"")
+        except Raised as e:
+            r = _raised(e, "_get_host_header")
+        n += 1
+        if r != "example.com":
+            bad.append((line, r))
+    try:
+        none = World(m).it.method(w.next_layer_addon(), "_get_host_header", cx, b"GET / HTTP/1.0\r\n\r\nHost: late.example\r\n", b"")
+    except Raised as e:
+        none = _raised(e, "_get_host_header")
+    ctx.cells += n + 2
+    ctx.check(got == "example.com" and not bad, "R19.1", where, "_get_host_header(<head with a Host line in any legal spelling>)",
+              f"the host is not extracted exactly: {bad or got!r}", desc=f"_get_host_header returns the bare host for {n + 1} spellings")
+    ctx.check(none is None, "R19.1", where, "_get_host_header(<head without Host>)", f"a head that ends before any Host line yields {none!r} instead of None", desc="no Host before the end of the head -> None")
+    ctx.expect_instances("R19.1", 24)
 
-    # ---- R19.2
+
+SOURCES = ("context.server.peername", "context.server.address", "Host header", "Host header with explicit port", "ClientHello SNI (TLS)", "ClientHello SNI (DTLS)",
+           "ClientHello SNI (QUIC)", "context.client.sni")
+
+
+def _source_case(w: World, source: str, host: str, port: int):
+    """(context, data_client) in which ONLY ``source`` names host (the connection's port is ``port``)"""
+    hello = Rec("ClientHello", _name="hello", sni=host, alpn_protocols=[])
+    other = ("192.0.2.7", port)
+    if source == "context.server.peername":
+        return w.context(peername=(host, port)), b""
+    if source == "context.server.address":
+        return w.context(address=(host, port)), b""
+    if source == "Host header":
+        return w.context(address=other), HTTP_HEAD % host.encode()
+    if source == "Host header with explicit port":
+        return w.context(address=("192.0.2.7", 9)), HTTP_HEAD % f"{host}:{port}".encode()
+    if source == "ClientHello SNI (TLS)":
+        w.hello = hello
+        return w.context(address=other), TLS_RECORD
+    if source == "ClientHello SNI (DTLS)":
+        w.hello = hello
+        return w.context(proto="udp", address=other), DTLS_RECORD
+    if source == "ClientHello SNI (QUIC)":
+        w.hello = hello
+        return w.context(proto="udp", address=other), QUIC_INITIAL
+    if source == "context.client.sni":
+        return w.context(address=other, client_sni=host), b""
+    raise AssertionError(source)
+
+
+def r192(ctx):
+    m = ctx.model
     ic = ctx.func(NL, "NextLayer._ignore_connection")
     wic = (NL, "NextLayer._ignore_connection", ic)
-    # def-use: latest source of each local, in statement order
-    sources = {}
-    appended = []
-    for st in walk_in_order(ic):
-        if isinstance(st, ast.Assign) and isinstance(st.targets[0], (ast.Tuple, ast.List)):
-            src = attr_chain(st.value)
-            for e in st.targets[0].elts:
-                n = e.value if isinstance(e, ast.Starred) else e
-                if isinstance(n, ast.Name):
-                    sources.setdefault(n.id, []).append((st.lineno, src))
-        elif isinstance(st, ast.NamedExpr) and isinstance(st.target, ast.Name):
-            src = norm(st.value.func) if isinstance(st.value, ast.Call) else attr_chain(st.value)
-            sources.setdefault(st.target.id, []).append((st.lineno, src))
-        elif isinstance(st, ast.Assign) and isinstance(st.targets[0], ast.Name) and st.targets[0].id == "host_header":
-            pass
-        elif isinstance(st, ast.Call) and attr_chain(st.func) == "hostnames.append" and st.args:
-            appended.append(st)
-    got = set()
-    for call in appended:
-        arg = call.args[0]
-        srcs = set()
-        has_port = False
-        for n in ast.walk(arg):
-            if isinstance(n, ast.Name):
-                if n.id == "port":
-                    has_port = True
-                cands = [s for ln, s in sources.get(n.id, []) if ln <= call.lineno]
-                if cands and n.id != "port":
-                    srcs.add(cands[-1])
-            elif isinstance(n, ast.Attribute):
-                ch = attr_chain(n)
-                if ch in ("client_hello.sni", "context.client.sni"):
-                    srcs.add(ch)
-        if isinstance(arg, ast.Name) and arg.id == "host_header":
-            # port is appended conditionally just before
-            has_port = any(isinstance(a, ast.Assign) and isinstance(a.targets[0], ast.Name) and a.targets[0].id == "host_header" and "port" in norm(a.value) for a in walk_in_order(ic))
-        for s in srcs:
-            got.add(s)
-            ctx.check(has_port, "R19.2", wic, f"hostnames.append({norm(arg)})", "destination is compared without its port (host:port patterns cannot match)", desc=f"source {s} as host:port")
-    want = {"context.server.peername", "context.server.address", "self._get_host_header", "client_hello.sni", "context.client.sni"}
-    for s in sorted(want - got):
-        ctx.fail("R19.2", wic, f"source {s}", "this destination source no longer feeds the ignore/allow decision: a connection identified only by it escapes the rules")
-    # NeedsMoreData
-    tries = [n for n in walk_in_order(ic) if isinstance(n, ast.Try)]
-    ctx.check(not tries, "R19.2", wic, "no try/except in _ignore_connection", "NeedsMoreData could be swallowed before next_layer defers the decision", desc="NeedsMoreData not caught in _ignore_connection")
-    raises = [n for n in walk_in_order(ghh) if isinstance(n, ast.Raise) and last_attr(n.exc) == "NeedsMoreData"]
-    ctx.check(len(raises) == 1, "R19.2", where, "raise NeedsMoreData (incomplete head)", "an incomplete request head no longer defers the decision (decision would depend on segmentation)", desc="_get_host_header raises NeedsMoreData")
-    gch = ctx.func(NL, "NextLayer._get_client_hello")
-    raises = [n for n in walk_in_order(gch) if isinstance(n, ast.Raise) and last_attr(n.exc) == "NeedsMoreData"]
-    ctx.check(len(raises) >= 2, "R19.2", (NL, "NextLayer._get_client_hello", gch), "raise NeedsMoreData (incomplete ClientHello)", "an incomplete ClientHello no longer defers the decision", desc="_get_client_hello raises NeedsMoreData")
+    ctx.func(NL, "NextLayer._get_client_hello")
     nl = ctx.func(NL, "NextLayer.next_layer")
-    handlers = [h for n in walk_in_order(nl) if isinstance(n, ast.Try) for h in n.handlers if h.type is not None and last_attr(h.type) == "NeedsMoreData"]
-    sets_layer = any(isinstance(a, ast.Assign) and attr_chain(a.targets[0]) == "nextlayer.layer" for h in handlers for a in ast.walk(h))
-    ctx.check(bool(handlers) and not sets_layer, "R19.2", (NL, "NextLayer.next_layer", nl), "except NeedsMoreData: defer", "next_layer decides although more data is needed", desc="next_layer defers on NeedsMoreData")
-    ctx.expect_instances("R19.2", 9)
+    for k, source in enumerate(SOURCES):
+        host, port = f"src-{k}.example", 1000 + k
+        res = {}
+        for opt in ("ignore", "allow"):
+            # the pattern names exactly host:port, so the source must reach the comparison, spelled "host:port"
+            w = World(m, **{opt: [rf"^src-{k}\.example:{port}$"]})
+            cx, data = _source_case(w, source, host, port)
+            res[opt] = _decide(w, cx, data)
+            if "ClientHello" in source and not w.parsed:
+                raise AnalysisError(f"R19.2: the ClientHello parser stub was not reached for {source} (first bytes no longer recognised?)")
+            ctx.cells += 1
+        ok = res == {"ignore": True, "allow": False}
+        ctx.check(ok, "R19.2", wic, f"source {source}",
+                  f"a destination named only by {source} (as host:port) does not decide the ignore/allow test: ignore_hosts=^host:port$ -> {res['ignore']}, allow_hosts=^host:port$ -> "
+                  f"{res['allow']} (expected True / False): a connection identified only by it escapes the rules", desc=f"source {source} decides as host:port")
+    # NeedsMoreData: incomplete input defers
+    cases = [
+        ("incomplete request head", "tcp", HTTP_HEAD[:40], None),
+        ("incomplete ClientHello (TLS)", "tcp", TLS_RECORD, None),
+        ("incomplete ClientHello (DTLS)", "udp", DTLS_RECORD, None),
+        ("incomplete ClientHello (QUIC)", "udp", QUIC_INITIAL, None),
+    ]
+    for name, proto, data, hello in cases:
+        w = World(m, ignore=[r"never\.example"], hello=hello)
+        cx = w.context(proto=proto, address=("192.0.2.7", 443))
+        r = _decide(w, cx, data)
+        ctx.cells += 1
+        ctx.check(r == "raises NeedsMoreData", "R19.2", wic, f"{name} -> NeedsMoreData",
+                  f"with {name} the decision is {r!r} instead of being deferred (it would depend on how the first bytes are segmented)", desc=f"{name} defers")
+        # ... and next_layer leaves the decision open
+        w = World(m, ignore=[r"never\.example"], hello=hello)
+        cx = w.context(proto=proto, address=("192.0.2.7", 443))
+        nxt = Rec("NextLayerHook", _name="nextlayer", layer=None, context=cx, data_client=lambda d=data: d, data_server=lambda: b"")
+        try:
+            w.it.method(w.next_layer_addon(), "next_layer", nxt)
+            out = nxt.layer
+        except Raised as e:
+            out = _raised(e, "next_layer")
+        ctx.check(out is None, "R19.2", (NL, "NextLayer.next_layer", nl), f"next_layer defers on {name}", f"next_layer ends with nextlayer.layer = {out!r} although more data is needed",
+                  desc=f"next_layer leaves the layer unset on {name}")
+    # a ClientHello that cannot be parsed is no reason to wait
+    w = World(m, ignore=[r"never\.example"], hello="invalid")
+    r = _decide(w, w.context(address=("192.0.2.7", 443)), TLS_RECORD)
+    ctx.check(r is False, "R19.2", wic, "unparseable ClientHello -> decide without SNI", f"an unparseable ClientHello gives {r!r}", desc="unparseable ClientHello: decided on the other sources")
+    ctx.expect_instances("R19.2", len(SOURCES) + 9)
 
-    # ---- R19.3
+
+def r193(ctx):
+    m = ctx.model
+    ic = ctx.func(NL, "NextLayer._ignore_connection")
+    wic = (NL, "NextLayer._ignore_connection", ic)
+    pats = {"unset": [], "nomatch": [r"other\.org"], "match": [r"dest\.example"]}
     bad = 0
     for allow in ("unset", "nomatch", "match"):
         for ignore in ("unset", "nomatch", "match"):
-            spec = IgnoreSpec({"allow": allow, "ignore": ignore})
-            eng = Engine(spec)
-            o = eng.run(ic, State())
-            rets = {s.get("$ret") for s in o.ret}
+            w = World(m, ignore=pats[ignore], allow=pats[allow])
+            got = _decide(w, w.context(address=("dest.example", 443)))
+            want = (allow == "nomatch") or (ignore == "match")
             ctx.cells += 1
-            want_v = (allow == "nomatch") or (ignore == "match" and allow != "nomatch") or (ignore == "match")
-            want_v = (allow != "unset" and allow == "nomatch") or (ignore == "match")
-            vals = {bool(v[1]) if is_const(v) else None for v in rets}
-            if vals != {want_v}:
+            if got is not want:
                 bad += 1
-                ctx.fail("R19.3", wic, f"allow={allow} ignore={ignore}", f"decision is {sorted(map(str, vals))}, reference says {want_v}")
-            for opt, elt in spec.search_calls.values():
-                okf = norm(elt.func) == "re.search" and any("IGNORECASE" in norm(a) for a in elt.args[2:] + [k.value for k in elt.keywords])
-                if not okf:
-                    bad += 1
-                    ctx.fail("R19.3", wic, f"{norm(elt.func)}(...) for {opt}", "patterns must be applied with re.search and re.IGNORECASE (host names are case-insensitive, patterns are unanchored)")
+                ctx.fail("R19.3", wic, f"allow={allow} ignore={ignore}", f"decision is {got}, reference says {want}")
+    # how patterns are applied: unanchored, case-insensitive, any (host, pattern) pair
+    two = dict(peername=("203.0.113.5", 443), address=("Sub.Dest.Example", 443))
+    cases = [
+        ("ignore pattern in the middle of the name, other case", dict(ignore=[r"B\.DEST\.exam"]), dict(address=("Sub.Dest.Example", 443)), True),
+        ("allow pattern in the middle of the name, other case", dict(allow=[r"B\.DEST\.exam"]), dict(address=("Sub.Dest.Example", 443)), False),
+        ("second ignore pattern matches second host", dict(ignore=[r"nothing\.test", r"^sub\.dest\.example:443$"]), two, True),
+        ("second allow pattern matches second host", dict(allow=[r"nothing\.test", r"^sub\.dest\.example:443$"]), two, False),
+        ("first allow pattern matches first host only", dict(allow=[r"^203\.0\.113\.5:443$", r"nothing\.test"]), two, False),
+        ("allowed but also ignored", dict(allow=[r"dest\.example"], ignore=[r"^sub\."]), dict(address=("sub.dest.example", 443)), True),
+        ("no destination known", dict(ignore=[r".*"]), dict(), False),
+    ]
+    for name, opts, conn, want in cases:
+        w = World(m, **opts)
+        got = _decide(w, w.context(**conn))
+        ctx.cells += 1
+        if got is not want:
+            bad += 1
+            ctx.fail("R19.3", wic, name, f"decision is {got}, expected {want}: patterns must be searched (unanchored, re.IGNORECASE) in every collected host:port")
     if not bad:
-        ctx.ok("R19.3", "9 cells equal the reference; both options use re.search(..., re.IGNORECASE)")
-    # ---- R19.4
+        ctx.ok("R19.3", "9 cells equal the reference; patterns are applied unanchored, case-insensitively, to every (host, pattern) pair")
+
+
+STACKS = (("ReverseProxy",), ("HttpProxy",), ("HttpUpstreamProxy",), ("TransparentProxy",), ("Socks5Proxy",), ("HttpProxy", "HttpLayer"), ("TransparentProxy", "ServerTLSLayer", "ClientTLSLayer"))
+
+
+def r194_paths(ctx):
     nlf = ctx.func(NL, "NextLayer._next_layer")
     wnl = (NL, "NextLayer._next_layer", nlf)
-    tr, _ = traces_of(nlf, GenericSpec(keep=lambda e: (e[0] == "call" and (e[1] == "self._ignore_connection" or e[1].startswith("self._setup") or e[1] in ("s", "starts_like_tls_record", "self._is_destination_in_hosts"))) or e[0] == "return"))
-    ctx.paths += len(tr)
-    ok = all(t and t[0] == ("call", "self._ignore_connection") for t, how, s in tr if how == "return")
-    ctx.check(ok, "R19.4", wnl, "self._ignore_connection(...) first", "another layer decision is taken before the ignore/allow test (TLS would be intercepted or HTTP parsed for an ignored host)", desc="ignore test dominates every return")
-    ifs = [n for n in walk_in_order(nlf) if isinstance(n, ast.If) and "self._ignore_connection" in norm(n.test)]
-    ctx.require(len(ifs) == 1, "_next_layer: ignore test not found")
-    ret = ifs[0].body[0]
-    layers = [c for c in ast.walk(ret) if isinstance(c, ast.Call) and last_attr(c.func) in ("TCPLayer", "UDPLayer")]
-    okl = isinstance(ret, ast.Return) and len(layers) == 2 and all(any(k.arg == "ignore" and norm(k.value) == "not ctx.options.show_ignored_hosts" for k in c.keywords) for c in layers)
-    ctx.check(okl, "R19.4", wnl, norm(ret), "ignored connections must get a raw TCP/UDP relay layer (hidden unless show_ignored_hosts)", desc="raw relay layer for ignored hosts")
+    m = ctx.model
+    cls = m.cls(NL, "NextLayer")
+    methods = {f.name: f for f in cls.body if isinstance(f, ast.FunctionDef)}
 
-    # ---- R19.5
+    def calls_test(fn, seen=()):
+        for n in ast.walk(fn):
+            if isinstance(n, ast.Call) and attr_chain(n.func).startswith("self."):
+                name = attr_chain(n.func)[5:]
+                if name == "_ignore_connection":
+                    return True
+                if name in methods and name not in seen and calls_test(methods[name], seen + (name,)):
+                    return True
+        return False
+
+    def resolver(call):
+        ch = attr_chain(call.func)
+        if ch.startswith("self.") and ch[5:] in methods and ch[5:] != "_ignore_connection" and calls_test(methods[ch[5:]], (ch[5:],)):
+            return methods[ch[5:]]
+        return None
+
+    tr, _ = traces_of(nlf, GenericSpec(keep=lambda e: e == ("call", "self._ignore_connection"), resolver=resolver))
+    ctx.paths += len(tr)
+    rets = [t for t, how, s in tr if how == "return"]
+    ctx.require(rets, "_next_layer: no returning path found")
+    ok = all(("call", "self._ignore_connection") in t for t in rets)
+    ctx.check(ok, "R19.4", wnl, "self._ignore_connection(...) first", "another layer decision is taken before the ignore/allow test (TLS would be intercepted or HTTP parsed for an ignored host)",
+              desc="the ignore test is evaluated on every returning path")
+
+
+def r194_matrix(ctx):
+    m = ctx.model
+    nlf = ctx.func(NL, "NextLayer._next_layer")
+    wnl = (NL, "NextLayer._next_layer", nlf)
+    for name in {n for st in STACKS for n in st}:
+        if not any(m.has(rel, name) for rel in (MODES, TLS, "mitmproxy/proxy/layers/http/__init__.py")):
+            raise AnalysisError(f"R19.4: layer class {name} of the evaluated stacks is unknown")
+    bad = {}
+    n = 0
+    for stack in STACKS:
+        for proto, relay, datas in (("tcp", "TCPLayer", (TLS_RECORD, HTTP_HEAD % b"x.example", RAW_BYTES, b"")), ("udp", "UDPLayer", (DTLS_RECORD, QUIC_INITIAL, RAW_BYTES))):
+            for data in datas:
+                for show in (False, True):
+                    w = World(m, ignore=[r"^dest\.example:443$"], show=show, hello=Rec("ClientHello", sni="x.example", alpn_protocols=[]))
+                    cx = w.context(proto=proto, stack=stack, address=("dest.example", 443))
+                    try:
+                        layer = w.it.method(w.next_layer_addon(), "_next_layer", cx, data, b"")
+                    except Raised as e:
+                        layer = _raised(e, "_next_layer")
+                    n += 1
+                    got = ((layer._cls, "flow" if layer.__dict__.get("flow", "FLOW") is not None else "no flow") if isinstance(layer, Rec) else layer)
+                    want = (relay, "flow" if show else "no flow")
+                    if got != want:
+                        bad.setdefault((got, want), (stack, proto, data[:12], show))
+    ctx.cells += n
+    for (got, want), (stack, proto, data, show) in bad.items():
+        what = "relay layer" if got[0] == want[0] else "layer"
+        ctx.fail("R19.4", wnl, f"ignored connection -> {want[0]}, {want[1]} (show_ignored_hosts={show})",
+                 f"for an ignored {proto} connection below {'/'.join(stack)} (first bytes {data!r}, show_ignored_hosts={show}) _next_layer yields {what} {got}: "
+                 "ignored connections must get a raw TCP/UDP relay by transport, hidden unless show_ignored_hosts")
+    if not bad:
+        ctx.ok("R19.4", f"ignored connection -> TCPLayer/UDPLayer by transport, flow only with show_ignored_hosts ({n} stack x transport x first-bytes x option cases)")
+
+
+# ---- R19.5
+
+
+def _tls_passthrough(ctx, w: World, is_dtls: bool, parent_tls: bool, chunks):
+    """ClientTLSLayer.receive_handshake_data with an addon that sets ignore_connection in tls_clienthello.
+    -> list of problems (strings)"""
+    m = ctx.model
+    it = w.it
+    full = b"".join(chunks)
+    mod = m.module(TLS)
+    hello = Rec("ClientHello", _name="hello", sni="sni.example", alpn_protocols=[])
+    w.hello = lambda kind, data: hello if bytes(data) == full else None
+    # the addon: sets data.ignore_connection while the hook is being handled
+    it.overrides[(TLS, "TlsClienthelloHook")] = Func(mod, _stub_lambda('lambda data: (setattr(data, "ignore_connection", True), setattr(data, "_seen_by_addon", True), ("$hook", data))[2]'))
+    for rel in (CONN, TLS):
+        it.overrides[(rel, "Client")] = lambda **kw: Rec("Client", _name="detached-client", **kw)
+        it.overrides[(rel, "Server")] = lambda **kw: Rec("Server", _name="detached-server", **kw)
+    cx = w.context(proto="udp" if is_dtls else "tcp", stack=("TransparentProxy",), address=("dest.example", 443))
+    client, server = cx.client, cx.server
+    parent = Rec("ServerTLSLayer" if parent_tls else "HttpLayer", _name="parent", conn=server, tunnel_connection=server, context=cx)
+    cx.layers.append(parent)
+    me = Rec("ClientTLSLayer", _name="client_tls", _impl=(TLS, "ClientTLSLayer"), context=cx, conn=client, tunnel_connection=client, client_hello_parsed=False,
+             recv_buffer=bytearray(), debug=None, child_layer=Rec("NextLayer", _name="undecided child"), server_tls_available=parent_tls, tls=None)
+    object.__setattr__(me, "is_dtls", is_dtls)
+    cx.layers.append(me)
+    me.event_to_child = Func(mod, _stub_def("def event_to_child(self, event):\n    yield ('$to_child', event, self.child_layer, self.conn, self.tunnel_connection)\n"), bound=me)
+    me.start_tls = Func(mod, _stub_def("def start_tls(self):\n    yield ('$tls', 'start_tls')\n"), bound=me)
+    me.start_server_tls = Func(mod, _stub_def("def start_server_tls(self):\n    yield ('$tls', 'start_server_tls')\n"), bound=me)
+    problems = []
+    ys, ret = [], None
+    for i, chunk in enumerate(chunks):
+        try:
+            ys, ret = w.drive(it.method(me, "receive_handshake_data", chunk), stop=lambda v: isinstance(v, tuple) and v and v[0] == "$tls")
+        except Raised as e:
+            raise AnalysisError(f"R19.5: receive_handshake_data raises {e.name} ({e.msg}) on segment {i + 1} in the abstract evaluation - not modelled")
+        if i < len(chunks) - 1:
+            if ys or ret != (False, None):
+                raise AnalysisError(f"R19.5: an incomplete ClientHello segment yields {ys} / returns {ret!r} (expected to wait)")
+    tls = [v for v in ys if isinstance(v, tuple) and v and v[0] == "$tls"]
+    if tls:
+        return [f"TLS is started ({tls[0][1]}) although the addon set ignore_connection"]
+    hooks = [v for v in ys if isinstance(v, tuple) and v and v[0] == "$hook"]
+    if len(hooks) != 1 or not hooks[0][1].__dict__.get("_seen_by_addon"):
+        raise AnalysisError(f"R19.5: the tls_clienthello hook stub was not reached exactly once: {ys}")
+    fw = [v for v in ys if isinstance(v, tuple) and v and v[0] == "$to_child"]
+    other = [v for v in ys if not (isinstance(v, tuple) and v and v[0] in ("$hook", "$to_child")) and not _is(v, "Log")]
+    if other:
+        problems.append(f"unexpected command {other[0]!r} on the passthrough path")
+    want_relay = "UDPLayer" if is_dtls else "TCPLayer"
+    if len(fw) != 1:
+        problems.append(f"{len(fw)} events are passed to the child layer (expected exactly one DataReceived with everything received so far)")
+    for _, ev, child, conn, tconn in fw:
+        if not _is(ev, "DataReceived") or ev.__dict__.get("connection") is not client:
+            problems.append(f"the replayed event is {ev!r} for {ev.__dict__.get('connection')!r}, not DataReceived for the client connection")
+        elif bytes(ev.data) != full:
+            problems.append(f"the bytes received before the decision are not forwarded completely and exactly once: {bytes(ev.data)!r} instead of all {len(full)} bytes {full!r}")
+        if not _is(child, want_relay) or child.__dict__.get("flow", "FLOW") is not None:
+            problems.append(f"when the buffered bytes are replayed the child layer is {child!r} (flow={child.__dict__.get('flow', 'FLOW') if isinstance(child, Rec) else '?'}), not an ignoring {want_relay}")
+        if conn is client or tconn is client:
+            problems.append("when the buffered bytes are replayed this TLS layer is still attached to the real client connection (the bytes would be fed to TLS again)")
+    if ret != (True, None):
+        problems.append(f"receive_handshake_data returns {ret!r} instead of (True, None): the tunnel keeps waiting for handshake data")
+    child = me.__dict__.get("child_layer")
+    if not _is(child, want_relay) or child.__dict__.get("flow", "FLOW") is not None:
+        problems.append(f"the installed child layer is {child!r}, not an ignoring {want_relay}")
+    if me.conn is client or me.tunnel_connection is client:
+        problems.append("ClientTLSLayer stays attached to the real client connection: later client bytes are fed to TLS instead of being relayed")
+    if parent_tls and (parent.conn is server or parent.tunnel_connection is server):
+        problems.append("the parent ServerTLSLayer stays attached to the real server connection: the relay's OpenConnection / server bytes go through TLS")
+    if not parent_tls and (parent.conn is not server or parent.tunnel_connection is not server):
+        problems.append("a parent layer that is no ServerTLSLayer is detached from the server connection")
+    return problems
+
+
+def r195_tls(ctx):
     rhd = ctx.func(TLS, "ClientTLSLayer.receive_handshake_data")
     wr = (TLS, "ClientTLSLayer.receive_handshake_data", rhd)
-    ifs = [n for n in walk_in_order(rhd) if isinstance(n, ast.If) and norm(n.test) == "tls_clienthello.ignore_connection"]
-    ctx.require(len(ifs) == 1, "ClientTLSLayer.receive_handshake_data: ignore branch not found")
-    br = ifs[0]
-    body_text = [norm(s) for s in br.body]
-    children = [c for s in br.body for c in ast.walk(s) if isinstance(c, ast.Call) and last_attr(c.func) in ("TCPLayer", "UDPLayer")]
-    ctx.check(len(children) == 2 and all(any(k.arg == "ignore" and norm(k.value) == "True" for k in c.keywords) for c in children), "R19.5", wr, "child_layer = TCPLayer/UDPLayer(ignore=True)",
-              "the ignore branch must install an ignoring raw relay layer", desc="ignoring child layer")
-    fw = [c for s in br.body for c in ast.walk(s) if isinstance(c, ast.Call) and last_attr(c.func) == "DataReceived"]
-    ctx.check(len(fw) == 1 and norm(fw[0].args[1]) == "bytes(self.recv_buffer)" and norm(fw[0].args[0]) == "self.context.client", "R19.5", wr, "forward DataReceived(client, bytes(self.recv_buffer))",
-              "the bytes received before the decision must be forwarded completely and exactly once", desc="whole buffer forwarded once")
-    no_tls = not any(isinstance(c, ast.Call) and last_attr(c.func) in ("start_tls", "start_server_tls") for s in br.body for c in ast.walk(s))
-    ctx.check(no_tls and isinstance(br.body[-1], ast.Return), "R19.5", wr, "return before start_tls", "TLS is started for an ignored connection", desc="no TLS on the ignore branch")
-    hook_line = [n.lineno for n in walk_in_order(rhd) if isinstance(n, ast.Yield) and isinstance(n.value, ast.Call) and last_attr(n.value.func) == "TlsClienthelloHook"]
-    tls_calls = [c.lineno for c in walk_in_order(rhd) if isinstance(c, ast.Call) and last_attr(c.func) in ("start_tls", "start_server_tls")]
-    ctx.check(bool(hook_line) and all(l > br.lineno for l in tls_calls), "R19.5", wr, "ignore decision precedes every start_tls", "TLS is started before the ignore decision is consulted", desc="ignore decision before TLS start")
-    for rel, cls, msg in ((TCP, "TCPLayer", "tcp"), (UDP, "UDPLayer", "udp")):
+    rec = TLS_RECORD[:30]
+    seen = {}
+    n = 0
+    for is_dtls in (False, True):
+        for parent_tls in (True, False):
+            for chunks in ([rec], [rec[:5], rec[5:]], [rec[:1], rec[1:9], rec[9:]]):
+                w = World(ctx.model)
+                for p in _tls_passthrough(ctx, w, is_dtls, parent_tls, chunks):
+                    seen.setdefault(p, (is_dtls, parent_tls, len(chunks)))
+                n += 1
+    ctx.cells += n
+    for p, (is_dtls, parent_tls, k) in seen.items():
+        ctx.fail("R19.5", wr, "ignore_connection passthrough: " + re.sub(r"b'.*?'|\d+ bytes", "..", p)[:110],
+                 f"{p} ({'DTLS' if is_dtls else 'TLS'}, parent {'ServerTLSLayer' if parent_tls else 'other'}, ClientHello in {k} segment(s))")
+    if not seen:
+        for d in ("no TLS is started", "TLS layers detached from the real connections", "ignoring TCP/UDP relay installed before the replay", "whole buffer replayed exactly once", "handshake reported finished"):
+            ctx.ok("R19.5", f"ignore_connection passthrough: {d} ({n} cases)")
+
+
+def r195_relay(ctx):
+    m = ctx.model
+    for rel, cls in ((TCP, "TCPLayer"), (UDP, "UDPLayer")):
         init = ctx.func(rel, f"{cls}.__init__")
-        ok = any(isinstance(n, ast.If) and norm(n.test) == "ignore" and norm(n.body[0]) == "self.flow = None" for n in walk_in_order(init))
-        ctx.check(ok, "R19.5", (rel, f"{cls}.__init__", init), "ignore -> self.flow = None", "an ignoring layer still records a flow", desc=f"{cls}: ignore means no flow")
-        rm = ctx.func(rel, f"{cls}.relay_messages")
-        sends = [c for c in walk_in_order(rm) if isinstance(c, ast.Call) and last_attr(c.func) == "SendData"]
-        raw = [c for c in sends if norm(c.args[1]) == "event.data" and norm(c.args[0]) == "send_to"]
-        under = False
-        for c in raw:
-            p = c._parent
-            while p is not rm:
-                if isinstance(p, ast.If) and norm(p.test) == "self.flow" and any(c in list(ast.walk(s)) for s in p.orelse):
-                    under = True
-                p = p._parent
-        ctx.check(len(raw) == 1 and under, "R19.5", (rel, f"{cls}.relay_messages", rm), "flow is None -> SendData(send_to, event.data)", "ignored traffic is not relayed byte-for-byte", desc=f"{cls}: identity relay without flow")
-    ctx.expect_instances("R19.5", 8)
+        w = World(m)
+        cx = w.context(proto="tcp" if cls == "TCPLayer" else "udp", address=("dest.example", 443))
+        client, server = cx.client, cx.server
+        try:
+            layer = w.new(rel, cls, cx, ignore=True)
+            shown = w.new(rel, cls, w.context(address=("dest.example", 443)), ignore=False)
+        except Raised as e:
+            raise AnalysisError(f"{cls}(context, ignore=...) raises {e.name}")
+        ctx.check(layer.__dict__.get("flow", "FLOW") is None and shown.__dict__.get("flow") is not None, "R19.5", (rel, f"{cls}.__init__", init), "ignore -> self.flow = None",
+                  f"{cls}(ignore=True).flow = {layer.__dict__.get('flow', '<unset>')!r}, {cls}(ignore=False).flow = {shown.__dict__.get('flow', '<unset>')!r}: an ignoring layer must not record a flow",
+                  desc=f"{cls}: ignore means no flow")
+        # drive the ignoring layer: Start, then data in both directions
+        h0 = initial_handler(m, rel, cls)
+        ctx.func(rel, f"{cls}.{h0}")
+        try:
+            ys, _ = w.drive(w.it.method(layer, h0, w.new(EVENTS, "Start")))
+        except Raised as e:
+            raise AnalysisError(f"{cls}.{h0}(Start) raises {e.name} in ignore mode")
+        relay = layer.__dict__.get("_handle_event")
+        ctx.require(isinstance(relay, Func) and not [y for y in ys if not _is(y, "Log")], f"{cls}: Start in ignore mode with a connected server yields {ys} / leaves _handle_event = {relay!r}")
+        where = (rel, f"{cls}.{relay.node.name}", relay.node)
+        ctx.functions.add(f"{rel}::{cls}.{relay.node.name}")
+        bad = []
+        for src, dst, name in ((client, server, "client"), (server, client, "server")):
+            for data in (b"\x16\x03\x01 opaque \x00\xff bytes", b""):
+                try:
+                    ys, _ = w.drive(w.it.apply(layer.__dict__["_handle_event"], [w.new(EVENTS, "DataReceived", src, data)], {}, 0))
+                except Raised as e:
+                    raise AnalysisError(f"R19.5: {cls} in ignore mode raises {e.name} ({e.msg}) on data from the {name} in the abstract evaluation - not modelled")
+                cmds = [y for y in ys if not _is(y, "Log")]
+                ok = len(cmds) == 1 and _is(cmds[0], "SendData") and cmds[0].__dict__.get("connection") is dst and cmds[0].__dict__.get("data") == data and type(cmds[0].data) is bytes
+                if not ok:
+                    bad.append(f"DataReceived({name}, {data!r}) -> {[(c._cls, getattr(c.__dict__.get('connection'), '_name', '?'), c.__dict__.get('data')) if isinstance(c, Rec) else c for c in cmds]}")
+                ctx.cells += 1
+        ctx.check(not bad, "R19.5", where, "flow is None -> SendData(send_to, event.data)", f"ignored traffic is not relayed byte-for-byte to the other peer: {bad[:2]}",
+                  desc=f"{cls}: identity relay without flow (both directions)")
+
+
+def check(ctx):
+    ctx.exhaustive = True
+    ctx.bounds.append("the abstract domains (destination sources, allow/ignore table, mode stacks x transports x first bytes, ClientHello segmentations) are enumerated completely; "
+                      "loops unrolled once in the dominance path enumeration")
+    ctx.rule("R19.1", "Host-sniffing regex: OWS optional, host forms accepted, no leading whitespace in the capture, IGNORECASE; _get_host_header returns the bare host")
+    ctx.rule("R19.2", "each of the five destination sources alone decides as host:port; incomplete head / ClientHello raises NeedsMoreData and next_layer defers")
+    ctx.rule("R19.3", "allow/ignore decision table == reference; patterns searched unanchored and case-insensitively in every host:port")
+    ctx.rule("R19.4", "ignore test is evaluated before every return of _next_layer and selects a raw relay by transport, hidden unless show_ignored_hosts")
+    ctx.rule("R19.5", "ignore paths relay the original bytes and never start TLS")
+    ctx.assume("not the WireGuard DNS special case (10.0.0.53:53 in WireGuard mode is never ignored by design)")
+    ctx.trust("ClientHello parsers (parse_client_hello, dtls_parse_client_hello, quic_parse_client_hello_from_datagrams) return the ClientHello / None when incomplete / raise ValueError (C16, C17)")
+    ctx.trust("Python `re` (applied by the interpreted code to the abstract host names)")
+    ctx.guard(r191, ctx)
+    ctx.guard(r192, ctx)
+    ctx.guard(r193, ctx)
+    ctx.guard(r194_paths, ctx)
+    ctx.guard(r194_matrix, ctx)
+    ctx.guard(r195_tls, ctx)
+    ctx.guard(r195_relay, ctx)
+    if not any(f.rule == "R19.5" for f in ctx.findings):
+        ctx.expect_instances("R19.5", 9)
+    if not any(f.rule == "R19.4" for f in ctx.findings):
+        ctx.expect_instances("R19.4", 2)
 
 
 MUTANTS = [
@@ -320,16 +728,32 @@ MUTANTS = [
     Mutant("host-regex-space-only", NL, r'rb"\r\n(?:Host:[ \t]*(\S.*?)\s*)?\r\n"', r'rb"\r\n(?:Host: ?(\S.*?)\s*)?\r\n"', "R19.1"),
     Mutant("host-regex-case-sensitive", NL, r'rb"\r\n(?:Host:[ \t]*(\S.*?)\s*)?\r\n", data_client, re.IGNORECASE', r'rb"\r\n(?:Host:[ \t]*(\S.*?)\s*)?\r\n", data_client', "R19.1"),
     Mutant("host-capture-leading-space", NL, r'rb"\r\n(?:Host:[ \t]*(\S.*?)\s*)?\r\n"', r'rb"\r\n(?:Host:(.+?)\s*)?\r\n"', "R19.1"),
+    Mutant("host-value-not-decoded-exactly", NL, 'return host.decode("utf-8", "surrogateescape")', 'return host.decode("utf-8", "surrogateescape").upper() + "."', "R19.1"),
     Mutant("sni-source-dropped", NL, '            ) and client_hello.sni:\n                hostnames.append(f"{client_hello.sni}:{port}")\n', "            ) and client_hello.sni:\n                pass\n", "R19.2"),
     Mutant("address-without-port", NL, '            host, port, *_ = context.server.address\n            hostnames.append(f"{host}:{port}")', '            host, port, *_ = context.server.address\n            hostnames.append(f"{host}")', "R19.2"),
     Mutant("incomplete-head-not-deferred", NL, "            else:\n                raise NeedsMoreData\n        else:\n            return None\n\n    @staticmethod\n    def _get_client_hello", "            else:\n                return None\n        else:\n            return None\n\n    @staticmethod\n    def _get_client_hello", "R19.2"),
+    Mutant("host-header-port-doubled", NL, '                if not re.search(r":\\d+$", host_header):\n                    host_header = f"{host_header}:{port}"\n', '                host_header = f"{host_header}:{port}"\n', "R19.2"),
+    Mutant("client-sni-source-dropped", NL, "            if context.client.sni:\n", "            if context.client.sni and False:\n", "R19.2"),
+    Mutant("dtls-hello-not-awaited", NL, "                        ch = dtls_parse_client_hello(data_client)\n                    except ValueError:\n                        pass\n                    else:\n                        if ch is None:\n                            raise NeedsMoreData\n",
+           "                        ch = dtls_parse_client_hello(data_client)\n                    except ValueError:\n                        pass\n                    else:\n                        if ch is None:\n                            return None\n", "R19.2"),
+    Mutant("deferral-swallowed-into-decision", NL, "        except NeedsMoreData:\n            logger.debug(", "        except NeedsMoreData:\n            nextlayer.layer = layers.HttpLayer(nextlayer.context, HTTPMode.transparent)\n            logger.debug(", "R19.2"),
     Mutant("ignore-hit-not-ignored", NL, "            if ignored:\n                return True\n", "            if ignored:\n                return False\n", "R19.3"),
     Mutant("allow-miss-intercepted", NL, "            not_allowed = not any(", "            not_allowed = any(", "R19.3"),
     Mutant("ignore-anchored-match", NL, "                re.search(rex, host, re.IGNORECASE)\n                for host in hostnames\n                for rex in ctx.options.ignore_hosts", "                re.match(rex, host, re.IGNORECASE)\n                for host in hostnames\n                for rex in ctx.options.ignore_hosts", "R19.3"),
     Mutant("allow-case-sensitive", NL, "                re.search(rex, host, re.IGNORECASE)\n                for host in hostnames\n                for rex in ctx.options.allow_hosts", "                re.search(rex, host)\n                for host in hostnames\n                for rex in ctx.options.allow_hosts", "R19.3"),
+    Mutant("allowed-wins-over-ignored", NL, "            if not_allowed:\n                return True\n", "            return not_allowed\n", "R19.3"),
+    Mutant("ignore-needs-all-hosts", NL, "            ignored = any(", "            ignored = all(", "R19.3"),
     Mutant("reverse-proxy-before-ignore", NL, "        # 1)  check for --ignore/--allow\n", "        if s(modes.ReverseProxy):\n            return self._setup_reverse_proxy(context, data_client)\n", "R19.4"),
     Mutant("ignored-layer-always-shown", NL, "layers.TCPLayer(context, ignore=not ctx.options.show_ignored_hosts)", "layers.TCPLayer(context, ignore=False)", "R19.4"),
+    Mutant("ignored-udp-gets-tcp-relay", NL, "                if tcp_based\n                else layers.UDPLayer(context, ignore=not ctx.options.show_ignored_hosts)", "                if tcp_based or udp_based\n                else layers.UDPLayer(context, ignore=not ctx.options.show_ignored_hosts)", "R19.4"),
     Mutant("ignore-forwards-partial-buffer", TLS, "events.DataReceived(self.context.client, bytes(self.recv_buffer))", "events.DataReceived(self.context.client, bytes(self.recv_buffer[5:]))", "R19.5"),
+    Mutant("ignore-forwards-last-segment-only", TLS, "            yield from self.event_to_child(\n                events.DataReceived(self.context.client, bytes(self.recv_buffer))\n            )\n            self.recv_buffer.clear()\n            return True, None",
+           "            self.recv_buffer.clear()\n            yield from self.event_to_child(\n                events.DataReceived(self.context.client, data)\n            )\n            return True, None", "R19.5"),
     Mutant("ignore-branch-starts-tls", TLS, "            self.recv_buffer.clear()\n            return True, None\n        if (\n            tls_clienthello.establish_server_tls_first", "            self.recv_buffer.clear()\n        if (\n            tls_clienthello.establish_server_tls_first", "R19.5"),
+    Mutant("ignore-keeps-server-tls-attached", TLS, "            if isinstance(parent_layer, ServerTLSLayer):\n                parent_layer.conn = parent_layer.tunnel_connection = connection.Server(", "            if False:\n                parent_layer.conn = parent_layer.tunnel_connection = connection.Server(", "R19.5"),
+    Mutant("ignore-replays-before-relay-installed", TLS, "            if self.is_dtls:\n                self.child_layer = udp.UDPLayer(self.context, ignore=True)\n            else:\n                self.child_layer = tcp.TCPLayer(self.context, ignore=True)\n            yield from self.event_to_child(\n                events.DataReceived(self.context.client, bytes(self.recv_buffer))\n            )\n",
+           "            yield from self.event_to_child(\n                events.DataReceived(self.context.client, bytes(self.recv_buffer))\n            )\n            if self.is_dtls:\n                self.child_layer = udp.UDPLayer(self.context, ignore=True)\n            else:\n                self.child_layer = tcp.TCPLayer(self.context, ignore=True)\n", "R19.5"),
+    Mutant("ignore-relay-records-flow", TLS, "self.child_layer = tcp.TCPLayer(self.context, ignore=True)", "self.child_layer = tcp.TCPLayer(self.context)", "R19.5"),
     Mutant("tcp-ignore-still-records", TCP, "        if ignore:\n            self.flow = None\n        else:\n            self.flow = tcp.TCPFlow", "        if ignore and False:\n            self.flow = None\n        else:\n            self.flow = tcp.TCPFlow", "R19.5"),
+    Mutant("udp-ignore-mode-echoes", UDP, "            else:\n                yield commands.SendData(send_to, event.data)\n", "            else:\n                yield commands.SendData(event.connection, event.data)\n", "R19.5"),
 ]
